@@ -128,9 +128,9 @@ package main
 
 // The flag variables are initialised at package initialisation (flag.Bool / flag.String return non-nil).
 //@ func main() ()
-//@ assigns prefixesFrozen, fs, foff, handledBy, synced, any ast.CallExpr.Fun, any derive.finder.undefined, any derive.finder.derived, any derive.finder.funcNames, any derive.printer.hasContent, any derive.printer.indent, any derive.printer.w, any derive.printer.imports, any derive.typesMap.generated, any derive.typesMap.funcToTyps, any derive.typesMap.typss
+//@ assigns prefixesFrozen, fs, foff, handledBy, synced, renamedUnsaved, any ast.CallExpr.Fun, any derive.finder.undefined, any derive.finder.derived, any derive.finder.funcNames, any derive.printer.hasContent, any derive.printer.indent, any derive.printer.w, any derive.printer.imports, any derive.typesMap.generated, any derive.typesMap.funcToTyps, any derive.typesMap.typss
 //@ requires autoname != nil && dedup != nil && prefix != nil && pluginprefix != nil
-//@ requires [fresh-process] !prefixesFrozen
+//@ requires [fresh-process] !prefixesFrozen && !renamedUnsaved
 //@ ensures [user-files-intact] (!old(*autoname) && !old(*dedup)) ==> forall q string :: !isDerivedFile(q) ==> ((q in fs) <==> (q in old(fs))) && fs[q] == old(fs)[q]
 //@ loop 1: invariant !prefixesFrozen && overridePrefixes != nil
 //@ loop 2: invariant !prefixesFrozen && overridePrefixes != nil && nonNilPlugins(plugins)
